@@ -306,6 +306,12 @@ func c03Recipes() []c03Recipe {
 		asm2 := ir.NewInlineAsm(types.NewPointer(types.NewFunc(types.Void)), "", "~{memory}")
 		asm2.SideEffect = true
 		e.b.NewCall(asm2)
+		// every combination of the inline asm flags
+		for fl := 0; fl < 8; fl++ {
+			a := ir.NewInlineAsm(types.NewPointer(types.NewFunc(types.Void)), "nop", "")
+			a.SideEffect, a.AlignStack, a.IntelDialect = fl&1 != 0, fl&2 != 0, fl&4 != 0
+			e.b.NewCall(a)
+		}
 		set(e, e.b.NewVAArg(e.p["pp"], types.I32))
 	})
 	add("freeze-phi", func(e *c03Env) {
